@@ -36,6 +36,7 @@ theorem create_body1 {db : Db} {s s3 : JState} {a : Addr} {acc acc3 : Acct}
   have ha := absAcct_some db s hs
   have p1 : Pushes db s s1 [.accountCreated a] := by
     refine Pushes.of_push hp rfl rfl rfl rfl ?_ (fun b hb => by cases hb; exact hz) ?_
+      (hg := Grows.upd hs rfl) (hr := by simp [refsOk, setAcct_state_same])
     · simp [absT_setAcct, putA, undoT, absOf, upd_upd_same, ha, upd_self', absSlot_some, hcr, hn,
         slotsOf_created_irrel db a hz true]
     · exact BalOk.of_eq (by simp [absT_setAcct, putA, absOf, ha, upd_self'])
@@ -43,7 +44,7 @@ theorem create_body1 {db : Db} {s s3 : JState} {a : Addr} {acc acc3 : Acct}
   have hs1 : s1.state a = some { acc with created := true } := by rw [q1.state]; simp [setAcct_state_same]
   have ha1 := absAcct_some db s1 hs1
   have p2 : Pushes db s1 (setAcct s1 a { acc with created := true, info := { acc.info with code := none } }) [] := by
-    refine Pushes.silent ?_ rfl rfl rfl rfl
+    refine Pushes.silent ?_ rfl rfl rfl rfl (Grows.upd hs1 rfl)
     simp [absT_setAcct, putA, absOf, ha1, upd_self', absSlot_some]
   obtain ⟨p3, h3a, h3b, h3c, h3d⟩ := touchAccount_pushes (db := db) (setAcct_state_same _ _ _) ht
   refine ⟨?_, h3a, ?_, ?_⟩
@@ -110,6 +111,7 @@ theorem revert_top {db : Db} {s sm sF : JState} {es : List Entry} (p : Pushes db
   have hab2 : absT db sF = absT db s := by
     rw [r2, hab, esd]; exact p.undo
   refine Pushes.silent hab2 ?_ (r3.trans p.spec) (r4.trans p.pre) ?_
+    (Grows.trans (Grows.congr_left (s0 := (checkpoint s).1) rfl p.grows) (revert_grows h))
   · rw [r5, hj]; simp [checkpoint]
   · rw [r6, p.logs]; simp [checkpoint]
 
@@ -196,7 +198,7 @@ theorem create_pushes {db : Db} {hasStorage : Addr → Bool} {s s' : JState} {ca
               obtain ⟨hu, hb6⟩ := create_tail (db := db) n4 hs3 hlt hc hcb hbal3 hp6
               have q6 := pushEntry_some hp6
               refine ⟨.balanceTransfer caller a bal :: ((if acc.touched then [] else [.accountTouched a]) ++ [.accountCreated a]),
-                ⟨fun t r hj => ?_, ?_, ?_, ?_, ?_, ?_, fun _ => hb6, ?_, ?_⟩,
+                ⟨fun t r hj => ?_, ?_, ?_, ?_, ?_, ?_, fun _ => hb6, ?_, ?_, ?_, ?_⟩,
                 by cases acc.touched <;> exact ⟨fun b h => by simp at h, fun b k h => by simp at h⟩⟩
               · have := q6.journal _ _ (p3.journal t r hj)
                 rw [this]; rfl
@@ -218,6 +220,28 @@ theorem create_pushes {db : Db} {hasStorage : Addr → Bool} {s s' : JState} {ca
                 cases hta : acc.touched <;> simp [hta] at hb
               · intro b k hb
                 cases hta : acc.touched <;> simp [hta] at hb
+              · -- no entry of the state map is removed
+                have g34 : Grows s3 (setAcct s3 a { acc3 with info := { acc3.info with balance := acc3.info.balance + bal, nonce := n4 } }) :=
+                  Grows.upd hs3 rfl
+                have g45 : Grows (setAcct s3 a { acc3 with info := { acc3.info with balance := acc3.info.balance + bal, nonce := n4 } })
+                    (setAcct (setAcct s3 a { acc3 with info := { acc3.info with balance := acc3.info.balance + bal, nonce := n4 } })
+                      caller { c with info := { c.info with balance := bsub c.info.balance bal } }) :=
+                  Grows.upd hc rfl
+                exact Grows.trans p3.grows (Grows.trans g34 (Grows.congr_right q6.state g45))
+              · -- the new entries refer to present accounts
+                have g36 : Grows s3 s6 := by
+                  have g34 : Grows s3 (setAcct s3 a { acc3 with info := { acc3.info with balance := acc3.info.balance + bal, nonce := n4 } }) :=
+                    Grows.upd hs3 rfl
+                  have g45 : Grows (setAcct s3 a { acc3 with info := { acc3.info with balance := acc3.info.balance + bal, nonce := n4 } })
+                      (setAcct (setAcct s3 a { acc3 with info := { acc3.info with balance := acc3.info.balance + bal, nonce := n4 } })
+                        caller { c with info := { c.info with balance := bsub c.info.balance bal } }) :=
+                    Grows.upd hc rfl
+                  exact Grows.trans g34 (Grows.congr_right q6.state g45)
+                intro e he
+                rcases List.mem_cons.1 he with rfl | he
+                · refine ⟨?_, g36.acct a (by simp [hs3])⟩
+                  rw [q6.state]; simp [setAcct_state_same]
+                · exact refsOk_mono g36 (p3.refs e he)
             by_cases hsd : specId ≥ SPURIOUS_DRAGON
             · simp only [hsd, if_true] at h
               split at h
